@@ -42,8 +42,9 @@ func (s *BigramFilter) Filter(input analysis.TokenStream) analysis.TokenStream {
 		if tokout.Type == analysis.Ideographic {
 			runes := bytes.Runes(tokout.Term)
 			sofar := 0
-			for _, run := range runes {
-				rlen := utf8.RuneLen(run)
+			for range runes {
+				// width of this rune in the term bytes (1 for an invalid byte), not of its re-encoding
+				_, rlen := utf8.DecodeRune(tokout.Term[sofar:])
 				token := &analysis.Token{
 					Term:         tokout.Term[sofar : sofar+rlen],
 					Start:        tokout.Start + sofar,
